@@ -188,6 +188,11 @@ class World:
         elif v["t"] == "dict":
             for k, x in codec.seq(v["kv"]):
                 self.remember(x)
+        elif v["t"] in ("cfgobj", "cfg"):
+            c = v.get("c", v)
+            if isinstance(c.get("vals"), dict):
+                for x in c["vals"].values():
+                    self.remember(x)
 
     def leaks(self, data):
         """Non-empty secret plaintexts (len >= 6) that appear in the document bytes."""
@@ -226,7 +231,10 @@ class World:
                 target = self.cfg
                 for key in codec.seq(ev["p"]):
                     target = getattr(target, key)
-                setattr(target, ev["k"], cfgadapter.value_to_py(cinco, ev["v"], None, self.root))
+                factory = None
+                if ev["v"]["t"] == "cfgobj":
+                    factory = cfgadapter.schema_field(cinco, self.schema, list(codec.seq(ev["p"])) + [ev["k"]])
+                setattr(target, ev["k"], cfgadapter.value_to_py(cinco, ev["v"], factory, self.root))
             elif op == "RoundTrip":
                 fmt = ev["fmt"]
                 with self.watch_open():
@@ -243,7 +251,13 @@ class World:
                 self.cfg = new
             elif op == "Render":
                 mask = None if ev["mask"]["m"] == "none" else "".join(codec.seq(ev["mask"]["s"]))
-                tree = self.cfg.to_tree(virtual=ev["virtual"], sensitive_mask=mask)
+                via = ev.get("via", "tree")
+                if via == "tree":
+                    tree = self.cfg.to_tree(virtual=ev["virtual"], sensitive_mask=mask)
+                else:
+                    # the document route: dumps() takes the same two arguments
+                    data = self.cfg.dumps(via, virtual=ev["virtual"], sensitive_mask=mask)
+                    tree = cinco.ConfigFormat.get(via).loads(self.cfg, data)
                 res["tree"] = sort_tree(self.abstract_tree(self.desc, tree))
                 # the tree must be plain data as Python sees it, too
                 res["nonplain"] = nonplain(tree) or None
@@ -322,13 +336,17 @@ def driver(cinco, desc, seed, n_traces, length):
             for _ in range(length):
                 r = rng.random()
                 if r < 0.6:
-                    which = rng.choice(["name", "pw", "hash", "blob", "bl", "sl", "dd", "api", "sub.tok", "vault", "vault.sec", "vault.inner.tok", "items", "sub.port", "vault.inner.n"])
+                    which = rng.choice(["dflt", "dl", "name", "pw", "hash", "blob", "bl", "sl", "dd", "api", "sub.tok", "vault", "vault.sec", "vault.inner.tok", "items", "sub.port", "vault.inner.n"])
                     path, key = which.rsplit(".", 1) if "." in which else ("", which)
                     p = path.split(".") if path else []
                     if key in ("name", "api"):
                         v = S(rnd_text(rng, 0, 10))
+                    elif key == "dflt":
+                        v = {"t": "dict", "kv": [[S(k), {"t": "int", "i": rng.randint(0, 9)}] for k in rng.sample(["a", "b", "c"], rng.randint(0, 3))]}
+                    elif key == "dl":
+                        v = {"t": "list", "l": [{"t": "int", "i": rng.randint(0, 9)} for _ in range(rng.randint(0, 3))]}
                     elif key in ("pw", "tok", "sec"):
-                        v = rng.choice([S(rnd_text(rng, 6, 14, edge=False)), S(""), {"t": "none"}])
+                        v = rng.choice([S(rnd_text(rng, 6, 14, edge=False)), S(rnd_text(rng, 30, 70, edge=False)), S(""), {"t": "none"}])
                     elif key == "hash":
                         v = S(rnd_text(rng, 6, 10, edge=False))
                     elif key == "blob":
@@ -350,7 +368,8 @@ def driver(cinco, desc, seed, n_traces, length):
                     ev = {"op": "RoundTrip", "fmt": rng.choice(["json", "yaml", "bson", "xml", "pickle"])}
                 else:
                     m = rng.choice([None, "", "*", "#", "XXXX", "masked"])
-                    ev = {"op": "Render", "virtual": rng.random() < 0.5, "mask": {"m": "none"} if m is None else {"m": "str", "s": list(m)}}
+                    ev = {"op": "Render", "virtual": rng.random() < 0.5, "mask": {"m": "none"} if m is None else {"m": "str", "s": list(m)},
+                          "via": rng.choice(["tree", "tree", "json", "yaml", "bson", "xml", "pickle"])}
                 try:
                     res = w.step(ev)
                     obs = w.observe()
